@@ -31,9 +31,15 @@ class Sanitizers:
         self._old_unraisable = sys.unraisablehook
 
         def hook(unraisable):
+            # exceptions swallowed by the interpreter (finalizers, __del__, callbacks): which object and which code, so that a report can
+            # be tied to the server's code - or recognised as the collection of some earlier case's leftovers
+            try:
+                where = "".join(traceback.format_tb(unraisable.exc_traceback)[-4:]) if unraisable.exc_traceback else ""
+            except Exception:
+                where = ""
             self.report(
                 "unraisable",
-                "%s: %r %r" % (unraisable.err_msg, unraisable.exc_type, unraisable.exc_value),
+                "%s: %r %r object=%.120r\n%s" % (unraisable.err_msg, unraisable.exc_type, unraisable.exc_value, unraisable.object, where),
             )
 
         sys.unraisablehook = hook
